@@ -6,12 +6,16 @@
        groups that own the kernels                                           (C10_junk_...)
    A2  bounds-checked re-statement of spmv / residual / CRS construction / transpose over
        flat arrays: LowLevel.v, LowLevelProofs.v, LowLevelT.v, LowLevelTProofs.v (C10_ll_...)
+   A2' the same with UNWRITTEN memory cells (new T[n] without initialisation): sort_row / sort_rows,
+       spgemm_saad, plain_aggregates (+ diagonal), tentative_prolongation, ilu0 constructor:
+       LowLevel2*.v, LowLevel2*Proofs.v                                      (C10_ll2_...)
    "any S" = for every Scalar record, IEEE floats with NaN payloads included. *)
 From Coq Require Import List.
 From Amgcl Require Import Scalar QcInst Vec Crs Kernels KernelsProofs MatOps MatOpsProofs Relax.
 From Amgcl Require Import Own OwnProofs Junk JunkProofs LowLevel LowLevelProofs LowLevelT LowLevelTProofs.
 From Amgcl Require Import Aggregates Coarsen CoarsenProofs Direct DirectProofs Krylov KrylovProofs
                           Cheby ChebyProofs Inverse InverseProofs Amg AmgProofs.
+From Amgcl Require Import Tentative LowLevel2 LowLevel2Proofs LowLevel2G LowLevel2GProofs LowLevel2A LowLevel2AProofs LowLevel2I.
 Import ListNotations.
 Local Open Scope S_scope.
 
@@ -290,4 +294,165 @@ Proof.
   unfold fwf; cbn. repeat split; try reflexivity.
   - intros i Hi. destruct i as [|[|[|i]]]; cbn; auto with arith. inversion Hi as [|? H1]. inversion H1 as [|? H2]. inversion H2 as [|? H3]. inversion H3.
   - intros c [<-|[<-|[<-|[]]]]; auto with arith.
+Qed.
+
+(* ================================================================== A2': unwritten memory
+   LowLevel2.v: arrays of cells (None = obtained from new T[n], never written); outcomes
+   Done x | OutOfBounds | UninitRead | OutOfFuel; signed indices as in the C++.  Each theorem
+   says: on valid input the array-level model of the C++ loops returns Done (hence stays inside
+   every array, reads no unwritten cell, stays within its loop bounds) and what it leaves in the
+   arrays is the flat image of the list model. *)
+
+(* flat arrays <-> list of rows (the bridge used by all statements below) *)
+Theorem C10_ll2_flat_roundtrip (S : Scalar) :
+  (forall A : crs S, unflat (flat_of A) = A) /\
+  (forall A : crs S, wf A = true -> fwf (flat_of A)) /\
+  (forall F : fcrs S, fwf F -> flat_of (unflat F) = F).
+Proof. exact flat_roundtrip. Qed.
+Print Assumptions C10_ll2_flat_roundtrip.
+
+(* detail::sort_row on the sub-array [|P|, |P| + |L|) of col / val: whatever the cells around
+   the row hold (P, Q, P', Q' may be unwritten), the row is sorted in place and nothing else
+   is touched; i = j - 1, i >= 0, col[i + 1] never leave the row *)
+Theorem C10_ll2_sort_row (S : Scalar) (P Q : marr nat) (P' Q' : marr S) (L : row S) :
+  length P = length P' ->
+  ll_sort_row (length P) (length L) (P ++ filled (map fst L) ++ Q, P' ++ filled (map snd L) ++ Q')
+  = Done (P ++ filled (map fst (sort_row L)) ++ Q, P' ++ filled (map snd (sort_row L)) ++ Q').
+Proof. exact (ll_sort_row_spec P Q P' Q' L). Qed.
+Print Assumptions C10_ll2_sort_row.
+
+(* backend::sort_rows, every matrix (columns are never used as indices) *)
+Theorem C10_ll2_sort_rows (S : Scalar) (A : crs S) :
+  ll_sort_rows (nrows A) (fptr (flat_of A)) (filled (fcol (flat_of A)), filled (fval (flat_of A)))
+  = Done (filled (fcol (flat_of (sort_rows A))), filled (fval (flat_of (sort_rows A)))) /\
+  fptr (flat_of (sort_rows A)) = fptr (flat_of A).
+Proof. exact (ll_sort_rows_ok A). Qed.
+Print Assumptions C10_ll2_sort_rows.
+
+Theorem C10_ll2_sort_rows_flat (S : Scalar) (F : fcrs S) : fwf F ->
+  exists col' val',
+    ll_sort_rows (fn F) (fptr F) (filled (fcol F), filled (fval F)) = Done (filled col', filled val') /\
+    fwf (mkF (fn F) (fm F) (fptr F) col' val') /\
+    unflat (mkF (fn F) (fm F) (fptr F) col' val') = sort_rows (unflat F).
+Proof. exact (ll_sort_rows_flat F). Qed.
+Print Assumptions C10_ll2_sort_rows_flat.
+
+Theorem C10_ll2_sort_rows_safe (S : Scalar) (A : crs S) :
+  let r := ll_sort_rows (nrows A) (fptr (flat_of A)) (filled (fcol (flat_of A)), filled (fval (flat_of A))) in
+  r <> OutOfBounds /\ r <> UninitRead /\ r <> OutOfFuel.
+Proof. exact (ll_sort_rows_safe A). Qed.
+Print Assumptions C10_ll2_sort_rows_safe.
+
+(* std::partial_sum in place (scan_row_sizes): every cell must have been written *)
+Theorem C10_ll2_partial_sum (l : list nat) : ll_psum (length l) (filled l) = Done (filled (psum l)).
+Proof. exact (ll_psum_ok l). Qed.
+Print Assumptions C10_ll2_partial_sum.
+
+(* backend::spgemm_saad: C.ptr after set_size and C.col / C.val after set_nonzeros are unwritten;
+   the marker array holds -1 / row numbers / positions; two passes + in-place sort of each row *)
+Theorem C10_ll2_spgemm_saad (S : Scalar) (A B : crs S) (sort : bool) :
+  wf A = true -> wf B = true -> ncols A <= nrows B ->
+  ll_spgemm (flat_of A) (flat_of B) sort = Done (minit (flat_of (spgemm_saad A B sort))).
+Proof. exact (ll_spgemm_ok A B sort). Qed.
+Print Assumptions C10_ll2_spgemm_saad.
+
+Theorem C10_ll2_spgemm_saad_flat (S : Scalar) (FA FB : fcrs S) (sort : bool) :
+  fwf FA -> fwf FB -> fm FA <= fn FB ->
+  exists FC, ll_spgemm FA FB sort = Done (minit FC) /\ fwf FC /\
+             unflat FC = spgemm_saad (unflat FA) (unflat FB) sort.
+Proof. exact (ll_spgemm_flat FA FB sort). Qed.
+Print Assumptions C10_ll2_spgemm_saad_flat.
+
+Theorem C10_ll2_spgemm_saad_safe (S : Scalar) (A B : crs S) (sort : bool) :
+  wf A = true -> wf B = true -> ncols A <= nrows B ->
+  let r := ll_spgemm (flat_of A) (flat_of B) sort in
+  r <> OutOfBounds /\ r <> UninitRead /\ r <> OutOfFuel.
+Proof. exact (ll_spgemm_safe A B sort). Qed.
+Print Assumptions C10_ll2_spgemm_saad_safe.
+
+(* backend::diagonal(A) writes numa_vector(n, false): complete when every row stores its diagonal *)
+Theorem C10_ll2_diagonal (S : Scalar) (A : crs S) (junk : vec S) :
+  wf A = true -> ncols A <= nrows A -> has_diag A = true ->
+  ll_diagonal (flat_of A) = Done (filled (diagonal A false junk)).
+Proof. exact (ll_diagonal_spec A junk). Qed.
+Print Assumptions C10_ll2_diagonal.
+
+(* coarsening::plain_aggregates: dia unwritten until diagonal() fills it, id with the sentinels
+   undefined = -1 / removed = -2 (signed), cnt[id[i]] a signed index; three passes + renumbering *)
+Theorem C10_ll2_plain_aggregates (S : Scalar) (eps2 : S) (A : crs S) (junk : vec S) :
+  wf A = true -> ncols A <= nrows A -> has_diag A = true ->
+  ll_plain_aggregates eps2 (flat_of A) = agg_out (plain_aggregates eps2 A junk).
+Proof. exact (ll_plain_aggregates_ok eps2 A junk). Qed.
+Print Assumptions C10_ll2_plain_aggregates.
+
+Theorem C10_ll2_plain_aggregates_safe (S : Scalar) (eps2 : S) (A : crs S) :
+  wf A = true -> ncols A <= nrows A -> has_diag A = true ->
+  let r := ll_plain_aggregates eps2 (flat_of A) in
+  r <> OutOfBounds /\ r <> UninitRead /\ r <> OutOfFuel.
+Proof. exact (ll_plain_aggregates_safe eps2 A). Qed.
+Print Assumptions C10_ll2_plain_aggregates_safe.
+
+(* ... hence the result does not depend on what the unwritten dia cells held (A1 for plain_aggregates) *)
+Theorem C10_junk_plain_aggregates (S : Scalar) (eps2 : S) (A : crs S) (j1 j2 : vec S) :
+  wf A = true -> ncols A <= nrows A -> has_diag A = true ->
+  agg_out (plain_aggregates eps2 A j1) = agg_out (plain_aggregates eps2 A j2).
+Proof. exact (ll_plain_aggregates_junk_free eps2 A j1 j2). Qed.
+Print Assumptions C10_junk_plain_aggregates.
+
+(* tentative_prolongation without null space: P.ptr / P.col / P.val unwritten, every id vector *)
+Theorem C10_ll2_tentative (S : Scalar) (n naggr : nat) (aggr : list Z) : length aggr = n ->
+  ll_tentative n naggr aggr = Done (minit (flat_of (tentative_prolongation (S := S) naggr aggr))).
+Proof. exact (ll_tentative_ok n naggr aggr). Qed.
+Print Assumptions C10_ll2_tentative.
+
+(* the degenerate inputs named by the property, and inputs on which the checks must (and do) bite *)
+Definition q10 (z : Z) : QcS := qc z 1.
+Example C10_ll2_degenerate_sort_spgemm :
+  (* 0 x 0, 1 x 1, empty rows *)
+  ll_sort_rows 0 [0] (filled [], filled ([] : list QcS)) = Done (filled [], filled []) /\
+  ll_sort_rows 1 [0; 1] (filled [0], filled [q10 3]) = Done (filled [0], filled [q10 3]) /\
+  ll_sort_rows 3 [0; 0; 2; 2] (filled [1; 0], filled [q10 1; q10 2]) = Done (filled [0; 1], filled [q10 2; q10 1]) /\
+  ll_spgemm (flat_of (mkCrs 0 ([] : list (row QcS)))) (flat_of (mkCrs 0 ([] : list (row QcS)))) true
+    = Done (mkM 0 0 [Some 0] [] []) /\
+  ll_spgemm (flat_of (mkCrs 1 [[(0, q10 2)]])) (flat_of (mkCrs 1 [[(0, q10 3)]])) true
+    = Done (mkM 1 1 (filled [0; 1]) (filled [0]) (filled [q10 6])) /\
+  ll_spgemm (flat_of (mkCrs 2 [[]; [(1, q10 2); (0, q10 1)]; []]))
+            (flat_of (mkCrs 2 [[(1, q10 3)]; [(1, q10 5); (0, q10 7)]])) true
+    = Done (mkM 3 2 (filled [0; 0; 2; 2]) (filled [0; 1]) (filled [q10 14; q10 13])) /\
+  (* a row length beyond the arrays; a row whose cells were never written; scan_row_sizes before the counts exist *)
+  ll_sort_row 0 3 (filled [2; 1], filled [q10 1; q10 2]) = OutOfBounds /\
+  ll_sort_row 0 2 (fresh 2, filled [q10 1; q10 2]) = UninitRead /\
+  ll_psum 2 (fresh 2) = UninitRead.
+Proof. repeat split; vm_compute; reflexivity. Qed.
+
+Example C10_ll2_degenerate_aggregates :
+  (* 1 x 1 and diagonal matrices: every node is removed -> empty_level *)
+  ll_plain_aggregates (qc 1 16) (flat_of (mkCrs 1 [[(0, q10 3)]])) = Done LAEmpty /\
+  ll_plain_aggregates (qc 1 16) (flat_of (mkCrs 3 [[(0, q10 2)]; [(1, q10 3)]; [(2, q10 4)]])) = Done LAEmpty /\
+  (* rows with only positive off-diagonals *)
+  ll_plain_aggregates (qc 1 64) (flat_of (mkCrs 3 [[(0, q10 4); (1, q10 1)]; [(0, q10 1); (1, q10 4); (2, q10 1)]; [(1, q10 1); (2, q10 4)]]))
+    = Done (LAOk 1 (filled [0; 0; 0]%Z) (filled [false; true; true; false; true; true; false])) /\
+  (* disconnected graph with an isolated node *)
+  ll_plain_aggregates (qc 1 16) (flat_of (mkCrs 5 [[(0, q10 2); (1, q10 (-1))]; [(0, q10 (-1)); (1, q10 2)]; [(2, q10 5)];
+                                                   [(3, q10 2); (4, q10 (-1))]; [(3, q10 (-1)); (4, q10 2)]]))
+    = Done (LAOk 2 (filled [0; 0; -2; 1; 1]%Z) (filled [false; true; true; false; false; false; true; true; false])) /\
+  (* a row that does not store its diagonal: dia[0] is read unwritten (invalid input; the guard has_diag is needed) *)
+  ll_plain_aggregates (qc 1 16) (flat_of (mkCrs 2 [[(1, q10 1)]; [(0, q10 1); (1, q10 2)]])) = UninitRead /\
+  (* tentative prolongation: n = 0; all nodes removed *)
+  ll_tentative (S := QcS) 0 0 [] = Done (mkM 0 0 [Some 0] [] []) /\
+  ll_tentative (S := QcS) 3 0 [-2; -2; -2]%Z = Done (mkM 3 0 (filled [0; 0; 0; 0]) [] []).
+Proof. repeat split; vm_compute; reflexivity. Qed.
+
+(* ilu0 constructor (LowLevel2I.v): 1 x 1; the two preconditions; a row without diagonal and without
+   upper entries leaves D[1] unwritten -- returned as such, and read by the next row that refers to it *)
+Example C10_ll2_ilu0_examples :
+  (exists st, ll_ilu0 (flat_of (mkCrs 1 [[(0, q10 4)]])) = Done (EOk st) /\ idd st = filled [qc 1 4] /\ ilh st = 0 /\ iuh st = 0) /\
+  ll_ilu0 (flat_of (mkCrs 1 [[(0, q10 0)]])) = Done (EThrow Ilu.ZeroPivot) /\
+  ll_ilu0 (flat_of (mkCrs 2 [[(1, q10 1)]; [(1, q10 1)]])) = Done (EThrow Ilu.NoDiag) /\
+  (exists st, ll_ilu0 (flat_of (mkCrs 2 [[(0, q10 2)]; [(0, q10 1)]])) = Done (EOk st) /\ idd st = [Some (qc 1 2); None]) /\
+  ll_ilu0 (flat_of (mkCrs 3 [[(0, q10 2)]; [(0, q10 1)]; [(1, q10 1); (2, q10 1)]])) = UninitRead.
+Proof.
+  split; [eexists; split; [vm_compute; reflexivity|repeat split; vm_compute; reflexivity]|].
+  split; [vm_compute; reflexivity|]. split; [vm_compute; reflexivity|].
+  split; [eexists; split; [vm_compute; reflexivity|vm_compute; reflexivity]|vm_compute; reflexivity].
 Qed.
